@@ -29,10 +29,11 @@ Theorem C09_quantize_every_digit_discarded est : est_in_range est -> forall c v 
 Proof. exact (quantize_all_discarded est). Qed.
 Print Assumptions C09_quantize_every_digit_discarded.
 
-Theorem C09_quantize_zero est : est_in_range est -> forall c v e,
-  form_of v = Finite -> coeff v = 0 -> 1 < e - exp v ->
+(* a zero operand: only the exponent changes - at any distance between the exponents - and no condition is raised *)
+Theorem C09_quantize_zero est c v e :
+  form_of v = Finite -> coeff v = 0 ->
   quantize_inner est c v e = Ok (mkDec Finite (neg v) e 0, c0).
-Proof. exact (quantize_zero_coarser est). Qed.
+Proof. exact (quantize_zero est c v e). Qed.
 Print Assumptions C09_quantize_zero.
 
 (* RoundToIntegralValue is RoundToIntegralExact without Inexact/Rounded *)
